@@ -10,6 +10,10 @@ import (
 	"math"
 	"regexp"
 	"strings"
+	"sync"
+	"time"
+
+	plush "github.com/gobuffalo/plush/v5"
 )
 
 // ---- values ----
@@ -70,7 +74,7 @@ func c06Raw(v c06Val) string {
 	case c06Int:
 		return fmt.Sprintf("%d", v.i)
 	case c06Float:
-		return fmt.Sprint(v.f)
+		return c06FloatText(v.f)
 	case c06Str:
 		return v.s
 	case c06Bool:
@@ -80,6 +84,36 @@ func c06Raw(v c06Val) string {
 		return "false"
 	}
 	return ""
+}
+
+// The printed form of a float. For the everyday range it is Go's shortest decimal ("1.5", "0.25", "-0.5", "0").
+// Where that form would carry an exponent (|f| >= 1e21 always, and in Go's %v already from 1e6 up / below 1e-4)
+// the property text does not say which spelling is "the printed form"; there it is DEFINED by what plush itself
+// writes for `<%= x %>` with x a context variable holding exactly this float64. So the oracle demands only that
+// an expression whose value is f renders like f itself, and that `string + f` appends that same text -- whatever
+// spelling plush has chosen. (If plush cannot render the variable at all, the leaf check reports that; the
+// fallback is Go's %v.)
+var c06FloatTexts sync.Map // math.Float64bits -> string
+
+func c06FloatText(f float64) string {
+	s := fmt.Sprint(f)
+	if !strings.ContainsAny(s, "eE") {
+		return s
+	}
+	key := math.Float64bits(f)
+	if v, ok := c06FloatTexts.Load(key); ok {
+		return v.(string)
+	}
+	o := safeCall(3*time.Second, func() (string, error) {
+		return plush.Render("<%= x %>", plush.NewContextWith(map[string]interface{}{"x": f}))
+	})
+	if o.Kind() == "OK" && o.Out != "" {
+		s = o.Out
+	}
+	if o.Kind() != "HANG" {
+		c06FloatTexts.Store(key, s)
+	}
+	return s
 }
 
 func c06Printed(v c06Val) string {
@@ -139,6 +173,7 @@ type c06Leaf struct {
 	val   c06Val      // reference value
 	goVal interface{} // non-nil: a context variable with this Go value
 	probe int         // 1: counting helper returning true, 2: counting helper returning false
+	mag   bool        // a value outside the everyday range (see c06ExtPool)
 }
 
 func (l *c06Leaf) src() string {
@@ -178,6 +213,38 @@ var c06Pool = []*c06Leaf{
 	{name: "nil", val: c06Val{k: c06Nil}},
 }
 
+// The extension pool: operand VALUES the everyday pool does not reach. "Integer" and "float" operands in the
+// property are Go's int and float64, so the quantifier covers the whole range of both:
+//   - ints that need more than 53 bits (not representable as a float64): 2^53+1 next to 2^53 (a near-equal pair),
+//     the largest int, 2^62+1 and -(2^53+1) as variables. A quotient, difference or comparison computed in
+//     floating point is wrong on these and on nothing smaller.
+//   - floats whose printed form has an exponent (>= 1e6 / 1e21, < 1e-4) and a non-zero whole-valued one (2.0 prints "2"):
+//     the operands on which "the printed form of x" in `string + x` can differ from what `<%= x %>` writes.
+//
+// All floats are exact in binary except 0.00001 (nearest float64, the same one plush's ParseFloat gives).
+var c06ExtPool = []*c06Leaf{
+	{name: "9007199254740993", val: c06IntV(9007199254740993), mag: true},
+	{name: "9007199254740992", val: c06IntV(9007199254740992), mag: true},
+	{name: "9223372036854775807", val: c06IntV(math.MaxInt64), mag: true},
+	{name: "ib", val: c06IntV(4611686018427387905), goVal: int(4611686018427387905), mag: true},
+	{name: "ibm", val: c06IntV(-9007199254740993), goVal: int(-9007199254740993), mag: true},
+	{name: "2.0", val: c06FloatV(2), mag: true},
+	{name: "1000000.0", val: c06FloatV(1e6), mag: true},
+	{name: "0.00001", val: c06FloatV(0.00001), mag: true},
+	{name: "fb", val: c06FloatV(2.5e7), goVal: 2.5e7, mag: true},
+	{name: "fs", val: c06FloatV(1.0 / 16384), goVal: 1.0 / 16384, mag: true},
+	{name: "fg", val: c06FloatV(3e21), goVal: 3e21, mag: true},
+}
+
+// everyday pool + extension pool
+var c06AllPool = append(append([]*c06Leaf(nil), c06Pool...), c06ExtPool...)
+
+// leaves of the two-operator enumeration around the extension values: (quick) a few of them next to one everyday
+// leaf per type; (thorough) more of them
+var c06MagQuickNames = []string{"3", "im", "9007199254740993", "ib", "1.5", "1000000.0", "fs", `"a"`}
+var c06MagThoroughNames = []string{"3", "im", "1.5", `"a"`,
+	"9007199254740993", "9007199254740992", "ib", "ibm", "1000000.0", "0.00001", "fb", "fs"}
+
 // reduced pool for the quick tier's two-operator enumeration (one or two leaves per type)
 var c06SmallPoolNames = []string{"0", "3", "im", "1.5", `"a"`, `""`, "true", "nil"}
 
@@ -187,7 +254,7 @@ var c06Probes = []*c06Leaf{
 }
 
 func c06LeafByName(n string) *c06Leaf {
-	for _, l := range c06Pool {
+	for _, l := range c06AllPool {
 		if l.name == n {
 			return l
 		}
@@ -257,6 +324,16 @@ func (n *c06Node) hasProbe() bool {
 		return n.l.hasProbe()
 	}
 	return n.l.hasProbe() || n.r.hasProbe()
+}
+
+func (n *c06Node) hasMag() bool {
+	switch {
+	case n.isLeaf():
+		return n.leaf.mag
+	case n.isUnary():
+		return n.l.hasMag()
+	}
+	return n.l.hasMag() || n.r.hasMag()
 }
 
 // s-expression: the oracle's own serialisation of a tree (replay input). Not plush syntax.
@@ -481,7 +558,32 @@ func c06Tmpl(n *c06Node, style string) string { return "<%= " + c06Print(n, styl
 
 type c06Counts struct{ ct, cf int }
 
-const c06IntLimit = int64(1) << 53 // beyond this the property text says nothing (overflow): unspecified
+// exact int64 arithmetic; ok=false when the mathematical result does not fit (the text is silent on overflow)
+func c06IntArith(op string, l, r int64) (v int64, ok bool) {
+	switch op {
+	case "+":
+		v = l + r
+		return v, (l^v)&(r^v) >= 0
+	case "-":
+		v = l - r
+		return v, (l^r)&(l^v) >= 0
+	case "*":
+		if l == 0 || r == 0 {
+			return 0, true
+		}
+		if (l == -1 && r == math.MinInt64) || (r == -1 && l == math.MinInt64) {
+			return 0, false
+		}
+		v = l * r
+		return v, v/r == l
+	case "/": // r != 0
+		if l == math.MinInt64 && r == -1 {
+			return 0, false
+		}
+		return l / r, true // Go's / truncates toward zero
+	}
+	return 0, false
+}
 
 func c06Eval(n *c06Node, cnt *c06Counts) c06Res {
 	ok := func(v c06Val) c06Res { return c06Res{class: c06OK, v: v} }
@@ -592,22 +694,12 @@ func c06Apply(op string, l, r c06Val) c06Res {
 		}
 		switch l.k {
 		case c06Int:
-			var v int64
-			switch op {
-			case "+":
-				v = l.i + r.i
-			case "-":
-				v = l.i - r.i
-			case "*":
-				v = l.i * r.i
-			case "/":
-				if r.i == 0 {
-					return c06Res{class: c06ErrDiv}
-				}
-				v = l.i / r.i // Go's / truncates toward zero
+			if op == "/" && r.i == 0 {
+				return c06Res{class: c06ErrDiv}
 			}
-			if v > c06IntLimit || v < -c06IntLimit {
-				return unspec
+			v, fits := c06IntArith(op, l.i, r.i)
+			if !fits {
+				return unspec // overflow of the 64-bit int: silent
 			}
 			return ok(c06IntV(v))
 		case c06Float:
@@ -625,8 +717,8 @@ func c06Apply(op string, l, r c06Val) c06Res {
 				}
 				v = l.f / r.f
 			}
-			if math.IsInf(v, 0) || math.IsNaN(v) || math.Abs(v) > 1e15 || (v != 0 && math.Abs(v) < 1e-4) {
-				return unspec // keep away from exponent printing / overflow: silent
+			if math.IsInf(v, 0) || math.IsNaN(v) {
+				return unspec // overflow: silent
 			}
 			return ok(c06FloatV(v))
 		}
